@@ -212,9 +212,15 @@ CLAIMS = {
              "of the property (every limit, every n in [L-3, L+6], every generated context: kind of line incl. first/interior/last "
              "block-comment line, position in file, tabs, final newline, nesting, surrounding functions) is evaluated on the "
              "implementation on every run, and the width specification and the two line-length check models are compared with it.  "
-             "Partial: the counters behind lines/functions/parameters/variables and the block-comment widths are searched "
-             "exhaustively over that family, not proved.",
-        ref="DESIGN.md 4.3", technique="Rocq proof (line width vs token columns from the lexer invariant; check model) + exhaustive boundary-family search",
+             "THE 25 LINES: over a trace model of the scope bookkeeping generated from the source on every run (Scope.outer/"
+             "get_outer, Context.update, CheckLineCount.run, the line test of CheckBrace, the history scan of IsBlockStart, the "
+             "effect of IsBlockEnd), for EVERY well-nested function body (any nesting of braced blocks and chains of brace-less "
+             "control structures of any depth, blank/comment/preprocessor lines anywhere): the Function scope has counted every "
+             "line end when its closing brace is processed, and TOO_MANY_LINES is emitted exactly once iff the body has more than "
+             "25 line ends (none at 25, always at 26); the model is compared with the implementation after every statement.  "
+             "Partial: the counters behind functions/parameters/variables and the block-comment widths are searched "
+             "exhaustively over that family, not proved; bare blocks and switch are outside the body grammar.",
+        ref="DESIGN.md 4.3", technique="Rocq proof (line width vs token columns from the lexer invariant; line-counter theorem over a scope-trace model generated from source) + per-statement correspondence + exhaustive boundary-family search",
         note=NOTE + "Not modelled: scope bookkeeping of the primaries behind the four counters."),
     "C05": dict(
         text="(a) Theorem for every string: the tokenizer model terminates (its fuel, |src|+1 steps each consuming >= 1 raw character, is "
@@ -243,9 +249,11 @@ CLAIMS = {
              "normally splits the tokens into consecutive, non-empty statements covering the whole stream; without -d such a run "
              "has set no token aside, i.e. text that no primary recognises is fatal wherever it sits (also at the end of the "
              "file); the loop terminates.  The loop model is replayed against the recorded pop_tokens/run_rules events of every "
-             "explored run.  Alignment (statements start at column 1 and end at a line end), nesting depth back at file level "
-             "and the fatal outcome for fragments that the tool itself reports `uncaught` under -d are evaluated on real runs: "
-             "partial (they depend on the unmodelled primaries).",
+             "explored run.  NESTING DEPTH: over the scope-trace model generated from the source (Gen/ScopeOps.v), after the "
+             "closing brace of any function or user-defined type with a well-nested body the scope chain is [Global] again, and "
+             "any file of such units ends in the global scope (unbounded; the model is compared with the implementation after "
+             "every statement).  Alignment (statements start at column 1 and end at a line end) and the fatal outcome for "
+             "inserted fragments are evaluated on real runs: partial (they depend on the unmodelled primaries).",
         ref="DESIGN.md 4.7", technique="Rocq proof (generic registry loop) + event-level correspondence + fragment-insertion search",
         note=NOTE + "Modelled: Registry.run generically. Not modelled: the primaries that decide where statements end."),
 }
